@@ -25,7 +25,7 @@ typedef struct {
   sv_t path;
   _Bool has_search; sv_t search;   /* without '?' */
   _Bool has_hash; sv_t hash;       /* without '#' */
-  _Bool pending_at;                /* parser-only state: credentials written, the '@' and the host not yet (buffer ends there) */
+  _Bool pending_at;                /* parser-only state: credentials and '@' written, the host not yet (the buffer ends after the '@') */
 } agg_view_t;
 
 static inline _Bool wf_no_byte(const char *p, size_t a, size_t b, char c1, char c2, char c3, char c4, char c5) {
@@ -65,13 +65,7 @@ static inline _Bool agg_wf_view(const struct url_aggregator *u, agg_view_t *v) {
     }
     _Bool cred = hs > pe + 2;
     v->pending_at = 0;
-    if (cred && hs == n) {
-      /* while the parser is still inside the authority state the credentials have been appended but neither the '@'
-       * nor the host exist yet; update_base_hostname() adds the '@'.  Nothing follows the credentials. */
-      if (!(he == hs && ps == hs)) return 0;
-      v->pending_at = 1;
-      v->host = (sv_t){b->d + hs, 0};
-    } else if (cred) {
+    if (cred) {
       if (hs >= n || b->d[hs] != '@') return 0;     /* '@' terminates the credentials */
       if (he < hs + 1) return 0;
       v->host = (sv_t){b->d + hs + 1, he - (hs + 1)};
@@ -81,8 +75,13 @@ static inline _Bool agg_wf_view(const struct url_aggregator *u, agg_view_t *v) {
     if (!wf_no_byte(v->host.p, 0, v->host.n, '@', '/', '?', '#', '\\')) return 0;
     /* a ':' in the host only inside brackets (IPv6): a host that does not start with '[' has no ':' */
     if (!(v->host.n > 0 && v->host.p[0] == '[') && !wf_no_byte(v->host.p, 0, v->host.n, ':', ':', ':', ':', ':')) return 0;
-    /* credentials or port require a non-empty host (URL Standard: cannot-have-a-username/password/port) */
-    if ((cred || c->port != OMITTED) && v->host.n == 0 && !v->pending_at) return 0;
+    /* credentials or port require a non-empty host (URL Standard: cannot-have-a-username/password/port) ... */
+    if ((cred || c->port != OMITTED) && v->host.n == 0) {
+      /* ... except inside the parser between the authority and host states: append_base_username/password have written the
+       * credentials and the '@', update_base_hostname() has not run yet, and nothing follows the '@' (the buffer ends there) */
+      if (!(cred && c->port == OMITTED && he == n)) return 0;
+      v->pending_at = 1;
+    }
   } else {
     if (!(ue == pe && hs == pe && he == pe)) return 0;
     v->host = (sv_t){b->d + pe, 0};
